@@ -79,7 +79,8 @@ class ConvKind(Kind):
     name = 'convergence'
     header = HDR
     case_type = 'c08_case'
-    check_fn = 'c08_check'
+    check_fn = 'c08_check'         # property level: points increasing / a step apart / last = total, columns = prefix scores, transparency
+    corr_fn = 'c08_corr'           # correspondence level: compute_results() log, column positions and count, _batches_processed marks
     explain_fn = 'c08_explain'
     shard = 120
     rule = ('scared.<X>Attack(convergence_step=k).run(Container) 1-3 times under set_batch_size(bs): exhaustive small scope '
@@ -218,13 +219,14 @@ class ConvKind(Kind):
             C.coq_nat(case['step']), C.coq_list(case['runs'], lambda r: '(%s, %s)' % (C.coq_nat(r[0]), C.coq_nat(r[1]))),
             'F32' if case['prec'] == 'float32' else 'F64')
         if 'raised' in obs:
-            return ('{| %s; c8_width := 0%%nat; c8_obs_computes := []; c8_obs_ncols := []; c8_obs_marks := None; c8_obs_conv := []; '
+            return ('{| %s; c8_width := 0%%nat; c8_obs_computes := []; c8_obs_ncols := []; c8_obs_points := []; c8_obs_marks := None; c8_obs_conv := []; '
                     'c8_obs_scores := []; c8_obs_results := []; c8_prefix_scores := []; c8_plain_scores := []; c8_plain_results := [] |}' % head)
-        return ('{| %s; c8_width := %s; c8_obs_computes := %s; c8_obs_ncols := %s; c8_obs_marks := %s; c8_obs_conv := %s; '
+        return ('{| %s; c8_width := %s; c8_obs_computes := %s; c8_obs_ncols := %s; c8_obs_points := %s; c8_obs_marks := %s; c8_obs_conv := %s; '
                 'c8_obs_scores := %s; c8_obs_results := %s; c8_prefix_scores := %s; c8_plain_scores := %s; c8_plain_results := %s |}' % (
                     head, C.coq_nat(len(obs['scores'])),
                     C.coq_list(obs['computes'], lambda c: '(%s, %s)' % (C.coq_nat(c[0]), C.coq_nat(c[1]))),
-                    C.coq_list(obs['ncols'], C.coq_nat), C.coq_option(obs['marks'], lambda m: C.coq_list(m, C.coq_nat)),
+                    C.coq_list(obs['ncols'], C.coq_nat), C.coq_list(obs['points'], C.coq_nat),
+                    C.coq_option(obs['marks'], lambda m: C.coq_list(m, C.coq_nat)),
                     C.coq_list(obs['conv'], base.fl), base.fl(obs['scores']), base.fl(obs['results']),
                     C.coq_list(obs['prefix'], base.fl), base.fl(obs['plain_scores']), base.fl(obs['plain_results'])))
 
